@@ -1,10 +1,10 @@
 (* SymCoreC02WF.v -- the operations the C02 extension adds keep the forest well-formed (the C01 invariant), and the
    step-level refinement / histories over op2 (base catalogue + slice assignment + slice deletion). *)
-From Coq Require Import ZArith NArith List Bool Lia.
+From Coq Require Import ZArith NArith List Bool Lia Permutation.
 Import ListNotations.
 From PG Require Import Common.Tactics Model.SymCoreDefs Model.SymCoreOps Model.SymCoreSpec Model.SymCoreC02
-     Proofs.SymCoreBase Proofs.SymCoreWF Proofs.SymCoreWFOps Proofs.SymCoreClone Proofs.SymCoreC08 Proofs.SymCoreC02Read
-     Proofs.SymCoreC02Frame Proofs.SymCoreC02Prim Proofs.SymCoreC02List Proofs.SymCoreC02Dict Proofs.SymCoreC02Step
+     Proofs.SymCoreBase Proofs.SymCoreWF Proofs.SymCoreWFOps Proofs.SymCoreClone Proofs.SymCoreIds Proofs.SymCoreC08 Proofs.SymCoreC02Read
+     Proofs.SymCoreC02Frame Proofs.SymCoreC02Prim Proofs.SymCoreC02List Proofs.SymCoreC02Items Proofs.SymCoreC02Dict Proofs.SymCoreC02Step
      Proofs.PyListFacts Proofs.SymCoreC02Slice.
 From PG Require Model.PyList Model.PyDict.
 Local Open Scope Z_scope.
@@ -40,6 +40,79 @@ Proof.
     exact (detach_all_wfs (g :: gone) _ WU WA).
 Qed.
 
+(* --- node ids stay pairwise distinct (the other half of C01's invariant) under the operations of the extension ------------------------ *)
+Lemma write_loop_rel : forall q sc ivs st ps upd st' u e,
+  WFI st -> Forall (fun iv => rv_ok (snd iv)) ivs -> write_loop q sc st ps ivs upd = (st', u, e) -> ids_rel st st'.
+Proof.
+  induction ivs as [|[i rv] ivs IH]; simpl; intros st ps upd st' u e W F E.
+  - inv E. apply ids_rel_refl.
+  - inv F. destruct (lprim q sc st ps (KI i) rv) as [st1 p] eqn:L.
+    pose proof (lprim_ids _ _ _ _ _ _ _ _ W H1 L) as R1.
+    pose proof (lprim_WFI _ _ _ _ _ _ _ _ W H1 L) as W1.
+    destruct p; [eapply ids_rel_trans; [exact R1|eapply IH; eauto] | eapply ids_rel_trans; [exact R1|eapply IH; eauto] | inv E; auto].
+Qed.
+Lemma filter_pos_partition_ids : forall f (its : list (key * node)) i,
+  Permutation (ids_items (PyList.filter_pos (fun j => negb (f j)) i its) ++ ids_items (PyList.filter_pos f i its)) (ids_items its).
+Proof.
+  induction its as [|[k c] its IH]; simpl; intros. constructor.
+  specialize (IH (i + 1)). destruct (f i); simpl; rewrite ?ids_items_cons; perm.
+Qed.
+Lemma ldel_many_rel : forall st ps f st' b tid tk pa pt fl its,
+  get_at st ps = Some (Node tid tk pa pt fl its) -> ldel_many st ps f = (st', b) -> ids_rel st st'.
+Proof.
+  intros st ps f st' b tid tk pa pt fl its G E. unfold ldel_many in E.
+  destruct (cur_items_facts _ _ _ _ _ _ _ _ G) as (E1 & E2 & _). rewrite E1, E2 in E. clear E1 E2.
+  destruct (PyList.filter_pos f 0 its) as [|g gone] eqn:GN.
+  - inv E. apply ids_rel_refl.
+  - injection E as E1 E2. subst st' b.
+    change (detach_all (add_detached (update_at st ps (set_items (renum pt (PyList.filter_pos (fun i => negb (f i)) 0 its)))) (snd g)) gone)
+      with (detach_all (update_at st ps (set_items (renum pt (PyList.filter_pos (fun i => negb (f i)) 0 its)))) (g :: gone)) || idtac.
+    apply ids_rel_same.
+    + rewrite (next_detach_all (g :: gone)). apply next_update_at.
+    + eapply perm_trans. apply (detach_all_ids (g :: gone)).
+      pose proof (replace_items_ids st st ps tid tk pa pt fl its (renum pt (PyList.filter_pos (fun i => negb (f i)) 0 its))
+                    (Leaf LNone) [] (ids_items (g :: gone)) G eq_refl) as X.
+      cbn [ids] in X. rewrite !app_nil_r in X. apply X; auto.
+      rewrite ids_items_renum, <- GN. apply filter_pos_partition_ids.
+Qed.
+
+Lemma exec_x_rel : forall q sc st ps tid pa pt fl its rx st' out,
+  WFI st -> get_at st ps = Some (Node tid KList pa pt fl its) ->
+  (match rx with LSetSlice _ _ _ vs => Forall rv_ok vs | LDelSlice _ _ _ => True | _ => False end) ->
+  exec_x q sc st ps fl its rx = (st', out) -> ids_rel st st'.
+Proof.
+  intros q sc st ps tid pa pt fl its rx st' out W G OK E.
+  destruct rx; try contradiction; unfold exec_x in E;
+    destruct (treats_as_sealed sc fl); try (inv E; apply ids_rel_refl);
+    destruct (negb (writable_via_accessors sc fl)); try (inv E; apply ids_rel_refl);
+    destruct (PyList.slice_indices a b c (zlen its)) as [[[start stop] step]|]; try (inv E; apply ids_rel_refl).
+  - destruct (step =? 1).
+    + destruct (write_loop q sc st ps (slice_writes start (Z.max start stop) vs) false) as [[st1 upd] err] eqn:WL.
+      pose proof (write_loop_rel _ _ _ _ _ _ _ _ _ W (slice_writes_ok _ _ _ OK) WL) as R1.
+      destruct err; [inv E; auto|].
+      destruct (ldel_many st1 ps (fun i => (start + zlen vs <=? i) && (i <? Z.max start stop))) as [st2 del] eqn:DM.
+      assert (R2 : ids_rel st1 st2).
+      { unfold ldel_many in DM. destruct (get_at st1 ps) as [[l|tid1 k1 pa1 pt1 fl1 its1]|] eqn:G1.
+        - unfold cur_items in DM. rewrite G1 in DM. simpl in DM. inv DM. apply ids_rel_refl.
+        - fold (ldel_many st1 ps (fun i => (start + zlen vs <=? i) && (i <? Z.max start stop))) in DM. eapply ldel_many_rel; eauto.
+        - unfold cur_items in DM. rewrite G1 in DM. simpl in DM. inv DM. apply ids_rel_refl. }
+      inv E. destruct ((upd || del) && notify_on sc).
+      * eapply ids_rel_trans; [exact R1|]. eapply ids_rel_trans; [exact R2|apply fix_chain_rel].
+      * eapply ids_rel_trans; eauto.
+    + destruct (negb (Nat.eqb (length (PyList.slice_range start stop step)) (length vs))); [inv E; apply ids_rel_refl|].
+      match type of E with context [write_loop ?a ?b ?c ?d ?e ?f] => destruct (write_loop a b c d e f) as [[st1 upd] err] eqn:WL end.
+      assert (R1 : ids_rel st st1).
+      { eapply write_loop_rel; [exact W| |exact WL].
+        assert (Forall (fun iv : Z * rvalue => rv_ok (snd iv)) (PyList.zip (PyList.slice_range start stop step) vs)).
+        { generalize (PyList.slice_range start stop step). clear - OK. induction vs; destruct l; simpl; auto. inv OK. constructor; auto. }
+        destruct (step <? 0); auto. apply Forall_rev; auto. }
+      destruct err; inv E; auto. destruct (upd && notify_on sc); auto.
+      eapply ids_rel_trans; [exact R1|apply fix_chain_rel].
+  - destruct (ldel_many st ps (fun i => PyList.zmem i (PyList.slice_range start stop step))) as [st1 del] eqn:DM.
+    pose proof (ldel_many_rel _ _ _ _ _ _ _ _ _ _ _ G DM) as R1.
+    inv E. destruct (del && notify_on sc); auto. eapply ids_rel_trans; [exact R1|apply fix_chain_rel].
+Qed.
+
 Section StepX.
 Variables (q : quirks) (ps : pos) (tid : N) (pa : option N) (fl : flags).
 Hypothesis NQ : no_quirks q.
@@ -63,9 +136,9 @@ Qed.
 
 (* one step of the extension on a list *)
 Theorem step_x_list_refines : forall st its sc x lo,
-  wfs st -> at_is st ps tid KList pa fl its -> clean its -> anc_clean st ps -> permits sc fl ->
+  WFI st -> at_is st ps tid KList pa fl its -> clean its -> anc_clean st ps -> permits sc fl ->
   vplain_xop x = true -> vxlop_of x = Some lo ->
-  wfs (fst (step2 q st (Ext sc ps x))) /\
+  WFI (fst (step2 q st (Ext sc ps x))) /\
   exists its',
     at_is (fst (step2 q st (Ext sc ps x))) ps tid KList pa fl its' /\ clean its' /\ anc_clean (fst (step2 q st (Ext sc ps x))) ps /\
     evals its' = PyList.lstate pv_pyeq (evals its) lo /\
@@ -81,12 +154,15 @@ Proof.
     destruct (exec_x q sc st ps fl its rx); reflexivity. }
   unfold step2. rewrite SX.
   destruct (exec_x q sc st ps fl its rx) as [st1 out] eqn:E. cbn [fst snd].
-  pose proof (exec_x_list_refines q sc ps tid pa fl st its rx lo st1 out W R C A PM PL LO E) as H.
+  pose proof (exec_x_list_refines q sc ps tid pa fl st its rx lo st1 out (proj1 W) R C A PM PL LO E) as H.
+  assert (RL : ids_rel st st1).
+  { eapply exec_x_rel; eauto. destruct rx; simpl in *; try discriminate; auto.
+    eapply Forall_impl; [|exact PL]. apply plain_rv_ok. }
   pose proof (get_at_lt _ _ _ R) as LT.
   unfold PyList.lstate. fold (py_lstep (evals its) lo).
   destruct (py_lstep (evals its) lo) as [[l' ret]|e].
   - destruct H as [(its' & R' & C' & E' & K' & A' & W') RA].
-    split. { apply gc_wfs; auto. }
+    split. { eapply WFI_step; [exact W|apply gc_wfs; auto|]. eapply ids_rel_trans; [exact RL|apply gc_rel]. }
     exists its'. repeat split; auto.
     + apply get_at_gc; auto.
     + eapply anc_clean_gc; eauto.
@@ -102,12 +178,12 @@ Inductive hop : Type := HB (o : op value) | HX (x : xop value).
 Definition hop2 (sc : scope) (ps : pos) (h : hop) : op2 :=
   match h with HB o => Base (mkSop sc ps o) | HX x => Ext sc ps x end.
 Definition hlop_of (h : hop) : option (PyList.lop pv) := match h with HB o => vlop_of o | HX x => vxlop_of x end.
-Definition hplain (l : list pv) (h : hop) : bool := match h with HB o => vplain_lop l o | HX x => vplain_xop x end.
+Definition hplain (h : hop) : bool := match h with HB o => vplain_lop o | HX x => vplain_xop x end.
 Fixpoint lhist2_ok (fl : flags) (l : list pv) (h : list (scope * hop)) : Prop :=
   match h with
   | [] => True
   | (sc, o) :: h' =>
-      permits sc fl /\ hplain l o = true /\
+      permits sc fl /\ hplain o = true /\
       exists lo, hlop_of o = Some lo /\ lhist2_ok fl (PyList.lstate pv_pyeq l lo) h'
   end.
 Fixpoint lhist2_py (l : list pv) (h : list (scope * hop)) : list pv :=
@@ -122,32 +198,32 @@ Variables (q : quirks) (ps : pos) (tid : N) (pa : option N) (fl : flags).
 Hypothesis NQ : no_quirks q.
 
 Theorem history2_list_refines : forall h st its,
-  wfs st -> at_is st ps tid KList pa fl its -> clean its -> anc_clean st ps -> lhist2_ok fl (evals its) h ->
+  WFI st -> at_is st ps tid KList pa fl its -> clean its -> anc_clean st ps -> lhist2_ok fl (evals its) h ->
   exists its', at_is (run_ops2 q st (on_pos2 ps h)) ps tid KList pa fl its' /\ clean its' /\ anc_clean (run_ops2 q st (on_pos2 ps h)) ps /\
-               wfs (run_ops2 q st (on_pos2 ps h)) /\ evals its' = lhist2_py (evals its) h.
+               WFI (run_ops2 q st (on_pos2 ps h)) /\ evals its' = lhist2_py (evals its) h.
 Proof.
   induction h as [|[sc o] h IH]; intros st its W R C A OK; simpl in *.
   - exists its; auto.
   - destruct OK as (PM & P & lo & L & OK'). rewrite L.
-    assert (S1 : wfs (fst (step2 q st (hop2 sc ps o))) /\
+    assert (S1 : WFI (fst (step2 q st (hop2 sc ps o))) /\
                  exists its1, at_is (fst (step2 q st (hop2 sc ps o))) ps tid KList pa fl its1 /\ clean its1 /\
                               anc_clean (fst (step2 q st (hop2 sc ps o))) ps /\
                               evals its1 = PyList.lstate pv_pyeq (evals its) lo).
     { destruct o as [o|x]; simpl in *.
       - destruct (step_list_refines q ps tid pa fl NQ st its sc o lo W R C A PM P L) as (its1 & R1 & C1 & A1 & E1 & _).
-        split; [apply step_wfs; auto|]. exists its1; auto.
+        split; [apply step_WFI; auto|]. exists its1; auto.
       - destruct (step_x_list_refines q ps tid pa fl st its sc x lo W R C A PM P L) as (W1 & its1 & R1 & C1 & A1 & E1 & _).
         split; auto. exists its1; auto. }
     destruct S1 as (W1 & its1 & R1 & C1 & A1 & E1).
     unfold run_ops2 in *.
     rewrite <- E1 in OK'. destruct (IH _ its1 W1 R1 C1 A1 OK') as (its' & R' & C' & A' & W' & E').
-    exists its'. repeat split; auto. rewrite E', E1. reflexivity.
+    exists its'. split; [auto|split; [auto|split; [auto|split; [auto|rewrite E', E1; reflexivity]]]].
 Qed.
 Corollary history2_list_erase : forall h st its,
-  wfs st -> at_is st ps tid KList pa fl its -> clean its -> anc_clean st ps -> lhist2_ok fl (evals its) h ->
+  WFI st -> at_is st ps tid KList pa fl its -> clean its -> anc_clean st ps -> lhist2_ok fl (evals its) h ->
   option_map erase (get_at (run_ops2 q st (on_pos2 ps h)) ps) = Some (plist (lhist2_py (evals its) h)).
 Proof.
   intros. destruct (history2_list_refines h st its H H0 H1 H2 H3) as (its' & R' & C' & A' & W' & E').
-  rewrite R'. simpl. f_equal. rewrite <- E'. eapply erase_list_at; eauto.
+  rewrite R'. simpl. f_equal. rewrite <- E'. eapply erase_list_at; eauto. apply W'.
 Qed.
 End History2.
